@@ -1321,3 +1321,104 @@ func ruleMemoScalarKey(c *Ctx) {
 	}
 	c.note("M-KEY (scalar clause): %d memos judged", n)
 }
+
+// ruleBuilderMeasure (C05-COL): the column at which padding starts is the length of the line AS BUILT SO FAR.  In
+// the formatter a measure of a strings.Builder's content (`sb.String()` handed to a counting function, `sb.Len()`)
+// that flows into the count of a strings.Repeat is taken after the last write into that builder: no Write* on the
+// same builder lies on a path between the measure and the Repeat.  A snapshot taken one statement early (before the
+// closing bracket of a virtual account is written) pads by a column too many for exactly those postings
+// (C05-m30) - their amounts leave the common column.
+func ruleBuilderMeasure(c *Ctx) {
+	if c.ranOnce("ruleBuilderMeasure") {
+		return
+	}
+	fpk := c.P.SSAPkg("internal/formatter")
+	isBuilderMethod := func(call ssa.CallInstruction, pred func(string) bool) (ssa.Value, bool) {
+		cal := call.Common().StaticCallee()
+		if cal == nil || cal.Signature.Recv() == nil || !typeHasSuffix(cal.Signature.Recv().Type(), "strings.Builder") || !pred(cal.Name()) || len(call.Common().Args) == 0 {
+			return nil, false
+		}
+		return call.Common().Args[0], true
+	}
+	n := 0
+	for _, f := range c.P.ModuleFuncs() {
+		top := f
+		for top.Parent() != nil {
+			top = top.Parent()
+		}
+		if top.Pkg != fpk {
+			continue
+		}
+		type site struct {
+			ins ssa.Instruction
+			sb  ssa.Value
+		}
+		var measures, writes []site
+		var repeats []*ssa.Call
+		for _, b := range f.Blocks {
+			for _, ins := range b.Instrs {
+				call, ok := ins.(ssa.CallInstruction)
+				if !ok {
+					continue
+				}
+				if sb, ok := isBuilderMethod(call, func(n string) bool { return n == "String" || n == "Len" }); ok {
+					measures = append(measures, site{ins, sb})
+				}
+				if sb, ok := isBuilderMethod(call, func(n string) bool { return strings.HasPrefix(n, "Write") }); ok {
+					writes = append(writes, site{ins, sb})
+				}
+				if cv, ok := ins.(*ssa.Call); ok {
+					if cal := cv.Call.StaticCallee(); cal != nil && funcName(cal) == "strings.Repeat" {
+						repeats = append(repeats, cv)
+					}
+				}
+			}
+		}
+		before := func(x, y ssa.Instruction) bool { // x can execute before y
+			if x.Block() == y.Block() {
+				for _, ins := range x.Block().Instrs {
+					if ins == x {
+						return true
+					}
+					if ins == y {
+						return false
+					}
+				}
+			}
+			return reachesBlock(x.Block(), y.Block())
+		}
+		for _, rp := range repeats {
+			sl := backSlice(rp.Call.Args[1])
+			for _, m := range measures {
+				mv, ok := m.ins.(ssa.Value)
+				if !ok || !sl[mv] {
+					continue
+				}
+				n++
+				stale := false
+				for _, w := range writes {
+					if w.sb != m.sb && !sameAddr(w.sb, m.sb, 0) {
+						continue
+					}
+					if w.ins != m.ins && before(m.ins, w.ins) && before(w.ins, rp) && !before(w.ins, m.ins) {
+						// a later measure of the same builder in the slice that lies behind the write re-synchronises
+						resync := false
+						for _, m2 := range measures {
+							m2v, ok := m2.ins.(ssa.Value)
+							if ok && m2.ins != m.ins && sl[m2v] && (m2.sb == m.sb || sameAddr(m2.sb, m.sb, 0)) && before(w.ins, m2.ins) && !before(m2.ins, w.ins) {
+								resync = true
+							}
+						}
+						if !resync {
+							stale = true
+						}
+					}
+				}
+				c.check(!stale, "C05-COL", funcName(f), "padding is computed from the line as built so far", rp.Pos(),
+					"no write into the builder between the measure and the padding",
+					"the count of blanks is computed from a measure of the line under construction that was taken before a later write into the same builder: the line is longer than measured when the padding is added, so the amount starts to the right of the column - for exactly the postings on which that write adds something (the closing bracket of a virtual account)")
+			}
+		}
+	}
+	c.note("C05-COL: %d measures of a builder that feed a padding count", n)
+}
